@@ -85,7 +85,7 @@ def c14(report, cfg, drounds_list, collect=None):
             i = bv.first_diff(got, exp)
             if i is not None:
                 report.violated("R14.1", key, "refill4: output byte %d (block %d, word %d) differs from the ChaCha block function at counter+%d: got bit %s"
-                                % (i // 8, i // 512, (i % 512) // 32, i // 512, bv.show_bit(got[i], 2)))
+                                % (i // 8, i // 512, (i % 512) // 32, i // 512, bv.show_bit(got[i], 2)[:200]), graphs=(got, exp))
                 return
             rows = state_rows(it, cell.v)
             expd = bv.add(d[:64], bv.const(4, 64)) + d[64:]
@@ -109,7 +109,7 @@ def c14(report, cfg, drounds_list, collect=None):
             i = bv.first_diff(got, exp)
             if i is not None:
                 report.violated("R14.2", nkey, "refill: output byte %d differs from the ChaCha block function: got bit %s"
-                                % (i // 8, bv.show_bit(got[i], 2)))
+                                % (i // 8, bv.show_bit(got[i], 2)[:200]), graphs=(got, exp))
                 return
             rows = state_rows(it, cell.v)
             expd = bv.add(d[:64], bv.const(1, 64)) + d[64:]
